@@ -1433,3 +1433,131 @@ Proof.
   intros Hnd. split; [|apply lg_tuple]. pose proof (wb_iterates _ _ _ (wb_tuple f items Hnd)) as H.
   unfold tup_chain in H. rewrite map_map in H. exact H.
 Qed.
+
+(* ------------------------------------------------------------------ Table: the occupied slots in slot order *)
+Fixpoint tab_chain_from (i : nat) (slots : list (option val)) : list (cur * val) :=
+  match slots with
+  | [] => []
+  | Some k :: r => (CPos (Z.of_nat i), k) :: tab_chain_from (S i) r
+  | None :: r => tab_chain_from (S i) r
+  end.
+
+Lemma tab_chain_app s t : forall i,
+  tab_chain_from i (s ++ t) = tab_chain_from i s ++ tab_chain_from (i + length s) t.
+Proof.
+  induction s as [|[k|] s IH]; intros i; simpl.
+  - now rewrite Nat.add_0_r.
+  - rewrite IH. do 3 f_equal. lia.
+  - rewrite IH. do 2 f_equal. lia.
+Qed.
+
+Lemma tab_chain_length slots : forall i, Z.of_nat (length (tab_chain_from i slots)) = nitems_of slots.
+Proof.
+  unfold nitems_of, zlen. induction slots as [|[k|] r IH]; intros i; cbn [tab_chain_from filter length]; auto.
+  rewrite !Nat2Z.inj_succ. f_equal. apply IH.
+Qed.
+
+Lemma tab_first_ok slots : forall i, tab_first slots (Z.of_nat i) = cur_at (tab_chain_from i slots) 0.
+Proof.
+  induction slots as [|[k|] r IH]; intros i; simpl; auto.
+  replace (Z.of_nat i + 1) with (Z.of_nat (S i)) by lia. apply IH.
+Qed.
+
+Lemma tab_first_shift slots : forall j,
+  tab_first slots j = match tab_first slots 0 with Some (CPos k) => Some (CPos (j + k)) | _ => None end.
+Proof.
+  induction slots as [|[k|] r IH]; intros j; simpl; auto.
+  - do 2 f_equal. lia.
+  - rewrite (IH (j + 1)), (IH 1). destruct (tab_first r 0) as [[k| | | | |]|]; auto. do 2 f_equal. lia.
+Qed.
+
+Lemma tab_chain_split slots : forall i m c k, nth_error (tab_chain_from i slots) m = Some (c, k) ->
+  exists p, c = CPos (Z.of_nat (i + p)) /\ nth_error slots p = Some (Some k) /\
+            tab_chain_from (S (i + p)) (skipn (S p) slots) = skipn (S m) (tab_chain_from i slots) /\
+            tab_chain_from i (firstn p slots) = firstn m (tab_chain_from i slots).
+Proof.
+  induction slots as [|[k0|] r IH]; intros i m c k E; simpl in E.
+  - destruct m; discriminate.
+  - destruct m as [|m]; simpl in E.
+    + inversion E; subst. exists 0%nat. rewrite Nat.add_0_r. simpl. auto.
+    + destruct (IH (S i) m c k E) as (p & -> & E1 & E2 & E3). exists (S p).
+      replace (i + S p)%nat with (S i + p)%nat by lia. simpl. repeat split; auto. now f_equal.
+  - destruct (IH (S i) m c k E) as (p & -> & E1 & E2 & E3). exists (S p).
+    replace (i + S p)%nat with (S i + p)%nat by lia. simpl. auto.
+Qed.
+
+Lemma occupied_nat slots j : occupied slots (Z.of_nat j) =
+  match nth_error slots j with Some (Some _) => OVal true | Some None => OVal false | None => OCrash end.
+Proof. unfold occupied. now rewrite znth_nat. Qed.
+
+Lemma tab_scan_fwd slots : forall fuel j, (length slots - j < fuel)%nat -> (j <= length slots)%nat ->
+  tab_scan R fuel Fwd slots (Z.of_nat j) = OVal (cur_at (tab_chain_from j (skipn j slots)) 0).
+Proof.
+  induction fuel; intros j Hf Hj; [lia|]. cbn [tab_scan table_next_strict repaired]. unfold zlen.
+  destruct (Z.ltb_spec (Z.of_nat (length slots) - 1) (Z.of_nat j)).
+  - rewrite skipn_all2 by lia. reflexivity.
+  - rewrite occupied_nat. destruct (nth_error slots j) as [x|] eqn:E; [|apply nth_error_None in E; lia].
+    rewrite (skipn_cons_nth _ _ _ E). destruct x as [k|]; cbn [bind tab_chain_from]; [reflexivity|].
+    replace (Z.of_nat j + 1) with (Z.of_nat (S j)) by lia. apply IHfuel; lia.
+Qed.
+
+Lemma tab_scan_bwd slots : forall j fuel, (j < fuel)%nat -> (j <= length slots)%nat ->
+  tab_scan R fuel Bwd slots (Z.of_nat j - 1) =
+  OVal (let l := tab_chain_from 0 (firstn j slots) in cur_before l (length l)).
+Proof.
+  induction j; intros fuel Hf Hj; (destruct fuel; [lia|]); cbn [tab_scan].
+  - reflexivity.
+  - replace (Z.of_nat (S j) - 1) with (Z.of_nat j) by lia.
+    replace (Z.of_nat j <? 0) with false by (symmetry; apply Z.ltb_ge; lia).
+    rewrite occupied_nat. destruct (nth_error slots j) as [x|] eqn:E; [|apply nth_error_None in E; lia].
+    rewrite (firstn_snoc_nth _ _ _ E), tab_chain_app. cbv zeta.
+    rewrite firstn_length_le by lia. destruct x as [k|]; cbn [bind tab_chain_from].
+    + rewrite app_length, Nat.add_1_r. cbn [length cur_before]. unfold cur_at.
+      rewrite nth_error_app2 by lia. rewrite Nat.sub_diag. reflexivity.
+    + rewrite app_nil_r. apply IHj; lia.
+Qed.
+
+Theorem wb_table f slots : wb f (ITable slots) (tab_chain_from 0 slots).
+Proof.
+  constructor.
+  - cbn [it_start]. unfold tab_start. rewrite <- (tab_chain_length slots 0).
+    change 0 with (Z.of_nat 0) at 2. rewrite tab_first_ok.
+    destruct (tab_chain_from 0 slots); reflexivity.
+  - cbn [it_start]. unfold tab_start. rewrite <- (tab_chain_length slots 0).
+    induction slots as [|x s IH] using rev_ind; [reflexivity|].
+    rewrite tab_chain_app, rev_app_distr. cbn [rev app length]. unfold zlen. rewrite app_length. cbn [length].
+    destruct x as [k|]; cbn [tab_chain_from tab_first].
+    + rewrite app_length, Nat.add_1_r. cbn [length cur_before]. unfold cur_at.
+      rewrite nth_error_app2 by lia. rewrite Nat.sub_diag.
+      replace (Z.of_nat (S (length (tab_chain_from 0 s))) =? 0) with false by (symmetry; apply Z.eqb_neq; lia).
+      cbn [option_map fst nth_error]. do 3 f_equal. lia.
+    + cbn [length]. rewrite Nat.add_0_r, app_nil_r. rewrite tab_first_shift.
+      destruct (Z.eqb_spec (Z.of_nat (length (tab_chain_from 0 s))) 0) as [E0|E0].
+      * destruct (tab_chain_from 0 s); [reflexivity|simpl in E0; lia].
+      * f_equal. injection IH as IH. rewrite <- IH.
+        destruct (tab_first (rev s) 0) as [[k| | | | |]|]; auto. unfold zlen. rewrite ?app_length. cbn [length]. do 2 f_equal. lia.
+  - intros m c k E. destruct (tab_chain_split _ _ _ _ _ E) as (p & -> & E1 & _).
+    cbn [cur_val Nat.add]. now rewrite znth_nat, E1.
+  - intros m c k E. destruct (tab_chain_split _ _ _ _ _ E) as (p & -> & E1 & E2 & _).
+    assert (p < length slots)%nat by (apply nth_error_Some; congruence).
+    cbn [it_step Nat.add]. unfold tab_step. replace (Z.of_nat p + 1) with (Z.of_nat (S p)) by lia.
+    rewrite tab_scan_fwd by lia. cbn [Nat.add] in E2. rewrite E2, cur_at_skipn. now rewrite Nat.add_0_r.
+  - intros m c k E. destruct (tab_chain_split _ _ _ _ _ E) as (p & -> & E1 & _ & E3).
+    assert (p < length slots)%nat by (apply nth_error_Some; congruence).
+    assert (m < length (tab_chain_from 0 slots))%nat by (apply nth_error_Some; congruence).
+    cbn [it_step Nat.add]. unfold tab_step. rewrite tab_scan_bwd by lia. cbv zeta. rewrite E3.
+    now rewrite cur_before_firstn by lia.
+Qed.
+
+Lemma table_summary f slots :
+  iterates f (ITable slots) (map snd (tab_chain_from 0 slots)) /\
+  it_len R (ITable slots) = OVal (zlen (tab_chain_from 0 slots)) /\
+  (forall k, In k (map snd (tab_chain_from 0 slots)) <-> In (Some k) slots).
+Proof.
+  split; [apply wb_iterates, wb_table|]. split.
+  - cbn [it_len]. unfold zlen. now rewrite tab_chain_length.
+  - intros k. generalize 0%nat. induction slots as [|[k0|] r IH]; intros i; simpl.
+    + tauto.
+    + rewrite IH. split; intros [H|H]; auto; left; congruence.
+    + rewrite IH. split; [auto|]. intros [H|H]; [discriminate|auto].
+Qed.
